@@ -777,6 +777,19 @@ func generate(r *hx.Rng) []*kase {
 		add("L", codec, local, remote, fmtConns(conns), "-")
 	}
 
+	// two real transports over loopback HTTP
+	for i := 0; i < *nNet; i++ {
+		local, remote, phases, db := genNet(r)
+		add("T", "v2", local, remote, fmtConns(phases), db)
+	}
+
+	// the pipeline / snapshot handlers on bodies that end early
+	for i := 0; i < *nHand; i++ {
+		kind := []string{"pipe", "snap"}[i%2]
+		local, remote, hm, db, cuts := genHandler(r, kind)
+		add("H", kind, local, remote, fmtMsgs([]raftpb.Message{hm}), db+" "+cuts)
+	}
+
 	// raw streams
 	for i := 0; i < *nRaw; i++ {
 		var codec string
